@@ -45,8 +45,17 @@ CONSTANTS StackIds,  \* which stacking orders (indices into AllStacks)
           MaxOps,    \* CONSTRAINT Bounded: at most this many operations per behaviour
           Faults,    \* TRUE = every operation may find the backend failing (environment choice per operation)
           Full,      \* TRUE = also the operation variants that the model cannot tell apart (see Next)
-          DetOnly    \* TRUE = multi-key steps whose resulting state depends on Go map order are disabled
+          DetOnly,   \* TRUE = multi-key steps whose resulting state depends on Go map order are disabled
                      \* (behaviour generation for deterministic replay; FALSE in the configs that decide C19)
+          Wrong      \* "none" = the wrappers as coded.  Anything else = a deliberately WRONG model (negative
+                     \* control, MC_neg.cfg): TLC has to refute a clause of C19 for each of them, which shows
+                     \* that the clauses are not vacuous on this universe:
+                     \*   "expiry_ge"          LRU hit test `!ExpiresAt.Before(now)` instead of `After`
+                     \*   "delete_keeps_local" LRUCache.Delete forgets the local removal
+                     \*   "add_always_local"   LRUCache.Add inserts locally whatever the layer below answered
+                     \*   "backfill_long"      back-fill with more than the default TTL
+                     \*   "no_version"         Versioned does not prefix the key
+                     \*   "decode_passthrough" SnappyCache hands out bytes it could not decode
 
 None    == "none"
 Corrupt == "corrupt"     \* bytes that are not a snappy block (written by a foreign client)
@@ -107,7 +116,7 @@ MaxOf(S)  == CHOOSE x \in S : \A y \in S : y <= x
 
 (* keys are pairs <<version, client key>>, version 0 = not (yet) prefixed *)
 CK(k)        == <<0, k>>
-AddVer(w, x) == <<w, x[2]>>                               \* versioned.go addVersion (view w has version w)
+AddVer(w, x) == IF Wrong = "no_version" THEN x ELSE <<w, x[2]>>                               \* versioned.go addVersion (view w has version w)
 RemVer(w, x) == IF x[1] = w THEN <<0, x[2]>> ELSE x      \* versioned.go removeVersion (strings.TrimPrefix)
 (* values are [v, enc]: client value v snappy-encoded enc times *)
 CV(v)    == [v |-> v, enc |-> 0]
@@ -141,7 +150,7 @@ LruLookup(seq, keys, found, miss) ==
   IF keys = <<>> THEN [seq |-> seq, found |-> found, miss |-> miss]
   ELSE LET k == Head(keys) IN
        IF ~Has(seq, k) THEN LruLookup(seq, Tail(keys), found, Append(miss, k))
-       ELSE IF EntryOf(seq, k).left > 0
+       ELSE IF EntryOf(seq, k).left > 0 \/ Wrong = "expiry_ge"
             THEN LruLookup(LruTouch(seq, k), Tail(keys), found @@ (k :> EntryOf(seq, k).val), miss)
             ELSE LruLookup(LruRemove(seq, k), Tail(keys), found, Append(miss, k))
 
@@ -184,7 +193,7 @@ AddAt(i, st, w, key, val, ttl) ==               \* Add; [st, stored]
                  ELSE [st |-> [st EXCEPT !.bk = BkPut(@, key, val, ttl)], stored |-> TRUE]
   ELSE CASE Kinds[i] = "lru" ->    \* local insert only if the layer below stored it
               LET r == AddAt(i + 1, st, w, key, val, ttl) IN
-              IF r.stored THEN [r EXCEPT !.st.lru[<<i, Inst(i, w)>>] = LruAdd(@, key, val, Pos(ttl), conf.cap)]
+              IF r.stored \/ Wrong = "add_always_local" THEN [r EXCEPT !.st.lru[<<i, Inst(i, w)>>] = LruAdd(@, key, val, Pos(ttl), conf.cap)]
               ELSE r
          [] Kinds[i] = "ver"    -> AddAt(i + 1, st, w, AddVer(w, key), val, ttl)
          [] Kinds[i] = "snappy" -> AddAt(i + 1, st, w, key, Encode(val), ttl)
@@ -193,7 +202,8 @@ RECURSIVE DelAt(_, _, _, _)
 DelAt(i, st, w, key) ==                         \* Delete
   IF i > NL THEN IF st.fail THEN st ELSE [st EXCEPT !.bk = Restrict(@, DOMAIN @ \ {key})]
   ELSE CASE Kinds[i] = "lru" ->    \* local removal, then below
-              DelAt(i + 1, [st EXCEPT !.lru[<<i, Inst(i, w)>>] = LruRemove(@, key)], w, key)
+              DelAt(i + 1, IF Wrong = "delete_keeps_local" THEN st
+                           ELSE [st EXCEPT !.lru[<<i, Inst(i, w)>>] = LruRemove(@, key)], w, key)
          [] Kinds[i] = "ver"    -> DelAt(i + 1, st, w, AddVer(w, key))
          [] Kinds[i] = "snappy" -> DelAt(i + 1, st, w, key)
 
@@ -210,7 +220,7 @@ GetAt(i, st, w, keys) ==
               IN IF look.miss = <<>>
                  THEN {[st |-> st1, found |-> look.found, err |-> FALSE, bf |-> {}]}
                  ELSE UNION {   \* back-fill everything the layer below returned with now + defaultTTL
-                        {[st    |-> [o.st EXCEPT !.lru[s] = LruAddAll(@, order, o.found, conf.dttl, conf.cap)],
+                        {[st    |-> [o.st EXCEPT !.lru[s] = LruAddAll(@, order, o.found, conf.dttl + (IF Wrong = "backfill_long" THEN 1 ELSE 0), conf.cap)],
                           found |-> o.found @@ look.found,
                           err   |-> o.err,
                           bf    |-> o.bf \cup {k[2] : k \in {x \in DOMAIN o.found : o.found[x].v # Corrupt}}]
@@ -220,7 +230,7 @@ GetAt(i, st, w, keys) ==
               {[o EXCEPT !.found = [x \in {RemVer(w, y) : y \in DOMAIN o.found} |-> o.found[AddVer(w, x)]]]
                 : o \in GetAt(i + 1, st, w, [j \in 1..Len(keys) |-> AddVer(w, keys[j])])}
          [] Kinds[i] = "snappy" ->      \* undecodable entries are dropped and reported
-              {LET good == {k \in DOMAIN o.found : Decodable(o.found[k])} IN
+              {LET good == {k \in DOMAIN o.found : Decodable(o.found[k]) \/ Wrong = "decode_passthrough"} IN
                [o EXCEPT !.found = [k \in good |-> Decode(o.found[k])],
                          !.err   = o.err \/ good # DOMAIN o.found]
                 : o \in GetAt(i + 1, st, w, keys)}
@@ -293,14 +303,16 @@ Add(w, k, v, ttl, f) ==
   /\ Record(Op("add", w, <<k>>, <<v>>, ttl, f,
                [NoRep EXCEPT !.stored = r.stored, !.live = Live(w, k), !.err = f], FALSE, r.st.bk))
 
-Get(w, ks, f) ==
+(* GetMultiWithError ("get") and GetMulti ("getplain": the same read; the error is logged, not returned - rep.err
+   is what GetMultiWithError would have returned and is invisible to that client) *)
+Get(name, w, ks, f) ==
   LET outs == GetAt(1, CurF(f), w, [j \in 1..Len(ks) |-> CK(ks[j])]) IN
   \E o \in outs :
     /\ DetOnly => Cardinality({x.st : x \in outs}) = 1
     /\ lru' = o.st.lru /\ bk' = o.st.bk
     /\ retLeft' = [x \in DOMAIN retLeft |-> IF x[1] = w /\ x[2] \in o.bf THEN Max(retLeft[x], conf.dttl) ELSE retLeft[x]]
     /\ UNCHANGED <<last, ownLeft, foreign, limbo>>
-    /\ Record(Op("get", w, ks, <<>>, 0, f,
+    /\ Record(Op(name, w, ks, <<>>, 0, f,
                  [NoRep EXCEPT !.found = [k \in {x[2] : x \in DOMAIN o.found} |-> o.found[CK(k)].v], !.err = o.err],
                  Cardinality({x.st : x \in outs}) > 1, o.st.bk))
 
@@ -326,6 +338,10 @@ Advance(d) ==        \* mock.Advance(d) and the wall clock of the LRU layers mov
   /\ limbo' = [x \in DOMAIN limbo |-> [v \in Values |-> IF limbo[x][v] < 0 THEN -1 ELSE Dec(limbo[x][v], d)]]
   /\ Record(Op("advance", 0, <<>>, <<>>, d, FALSE, NoRep, FALSE, b2))
 
+Stop(w) ==           \* Stop is handed down to the backend; no wrapper drops or changes anything it holds
+  /\ UNCHANGED <<mech, ghosts>>
+  /\ Record(Op("stop", w, <<>>, <<>>, 0, FALSE, NoRep, FALSE, bk))
+
 Poke(w, k, ttl) ==   \* a foreign client stores bytes that are not a snappy block directly in the backend
   LET b2 == (BackendKey(w, k) :> [val |-> CV(Corrupt), left |-> ttl]) @@ bk IN
   /\ HasKind("snappy")
@@ -346,15 +362,18 @@ Fs == IF Faults THEN BOOLEAN ELSE {FALSE}
 SetOp      == \E w \in Views, k \in Keys, v \in Values, ttl \in TTLs, f \in Fs : Set("set", w, k, v, ttl, f)
 SetMultiOp == \E w \in Views, ks \in KeySets, ttl \in TTLs, f \in Fs : \E vals \in [1..Len(ks) -> Values] : SetMulti(w, ks, vals, ttl, f)
 AddOp      == \E w \in Views, k \in Keys, v \in Values, ttl \in TTLs, f \in Fs : Add(w, k, v, ttl, f)
-GetOp      == \E w \in Views, ks \in KeySeqs, f \in Fs : Get(w, ks, f)
+GetOp      == \E w \in Views, ks \in KeySeqs, f \in Fs : Get("get", w, ks, f)
 DeleteOp   == \E w \in Views, k \in Keys, f \in Fs : Delete(w, k, f)
 AdvanceOp  == \E d \in Deltas : Advance(d)
 PokeOp     == \E w \in Views, k \in Keys, ttl \in PokeTTLs : Poke(w, k, ttl)
 SetAsyncOp == Full /\ \E w \in Views, k \in Keys, v \in Values, ttl \in TTLs, f \in Fs : Set("setasync", w, k, v, ttl, f)
 SetMulti1Op == Full /\ \E w \in Views, k \in Keys, v \in Values, ttl \in TTLs, f \in Fs : SetMulti(w, <<k>>, <<v>>, ttl, f)
 
+GetPlainOp == Full /\ \E w \in Views, ks \in KeySeqs, f \in Fs : Get("getplain", w, ks, f)
+StopOp     == Full /\ \E w \in Views : Stop(w)
+
 Next == \/ SetOp \/ SetMultiOp \/ AddOp \/ GetOp \/ DeleteOp \/ AdvanceOp \/ PokeOp
-        \/ SetAsyncOp \/ SetMulti1Op
+        \/ SetAsyncOp \/ SetMulti1Op \/ GetPlainOp \/ StopOp
 
 HasLru(s) == \E i \in 1..Len(AllStacks[s]) : AllStacks[s][i] = "lru"
 Confs == {c \in [stack : StackIds, cap : Caps, dttl : DTTLs] :
@@ -399,8 +418,9 @@ KeysWellPlaced ==
 
 (* State form of the read clauses: what any single-key read would return now *)
 PkIsPeek == pk = PeekMap(Cur)
-MayBe(x, v) == v = last[x] \/ limbo[x][v] >= 0     \* v is the stored value, or a write of v is in limbo
-InTime(x, v) == ownLeft[x] > 0 \/ retLeft[x] > 0 \/ limbo[x][v] > 0
+LimboOf(x, v) == IF v \in Values THEN limbo[x][v] ELSE -1
+MayBe(x, v) == v = last[x] \/ LimboOf(x, v) >= 0     \* v is the stored value, or a write of v is in limbo
+InTime(x, v) == ownLeft[x] > 0 \/ retLeft[x] > 0 \/ LimboOf(x, v) > 0
 PeekNeverWrong ==
   \A x \in DOMAIN pk : pk[x] # None => MayBe(x, pk[x])
 PeekNeverAfterDeadline ==
@@ -411,7 +431,7 @@ PeekBoundedStaleness ==
 
 ----------------------------------------------------------------------------
 (* The property's clauses as action properties over (ghosts before the step, reply of the step). *)
-IsGet == op'.name = "get"
+IsGet == op'.name \in {"get", "getplain"}
 WriteOps == {"set", "setasync", "setmulti", "add", "delete", "poke"}
 Returned == DOMAIN op'.rep.found
 
@@ -423,7 +443,7 @@ Returned == DOMAIN op'.rep.found
 NeverWrong ==          \* a returned value is the latest one stored under that (view, key) [or one in limbo]
   [][IsGet => \A k \in Returned : MayBe(<<op'.w, k>>, op'.rep.found[k])]_vars
 NeverAfterDelete ==    \* nothing is returned for a key that was deleted (or never stored) [unless written since]
-  [][IsGet => \A k \in Returned : last[<<op'.w, k>>] # None \/ limbo[<<op'.w, k>>][op'.rep.found[k]] >= 0]_vars
+  [][IsGet => \A k \in Returned : last[<<op'.w, k>>] # None \/ LimboOf(<<op'.w, k>>, op'.rep.found[k]) >= 0]_vars
 NeverAfterDeadline ==  \* nothing is returned after the later of the own TTL and the default retention
   [][IsGet => \A k \in Returned : InTime(<<op'.w, k>>, op'.rep.found[k])]_vars
 NeverCorrupt ==        \* undecodable bytes never reach the client; errors only come from them or from the backend
@@ -470,6 +490,9 @@ AddSemantics ==
        /\ op'.rep.live = Live(w, k)
        /\ ~op'.rep.stored => UNCHANGED <<mech, ghosts>>
        /\ op'.rep.stored /\ op'.ttl > 0 => pk'[<<w, k>>] = op'.vals[1]]_vars
+
+StopIsInert ==         \* Stop never changes what a client reads
+  [][op'.name = "stop" => pk' = pk /\ UNCHANGED mech]_vars
 
 ReadYourWrites ==      \* (not part of C19; guards against a vacuous specification)
   [][op'.name \in {"set", "setasync", "setmulti"} /\ ~op'.fail /\ op'.ttl > 0 =>
